@@ -2,6 +2,7 @@
 package c02
 
 import (
+	"encoding/binary"
 	"errors"
 	"fmt"
 	"math"
@@ -9,6 +10,8 @@ import (
 	"testing"
 
 	geom "github.com/twpayne/go-geom"
+	"github.com/twpayne/go-geom/encoding/wkb"
+	"github.com/twpayne/go-geom/encoding/wkbcommon"
 	"pgregory.net/rapid"
 
 	"verifharness/internal/gen"
@@ -39,6 +42,12 @@ type Case struct {
 	Layout int    `json:"layout"`
 	Fixed  bool   `json:"fixed,omitempty"` // collection with a fixed layout
 	Ops    []Op   `json:"ops"`
+	// Init and InitVia: the parts the receiver holds before the history starts and
+	// the constructor that put them there ("" = none: the New function alone;
+	// "flat", "flat-plain" (a MultiPoint from its coordinates alone, no ends),
+	// "setcoords", "push", "clone" (a clone of a flat-built value), "wkb" (decoded)).
+	Init    []model.G `json:"init,omitempty"`
+	InitVia string    `json:"initVia,omitempty"`
 }
 
 var partKind = map[string]string{
@@ -79,6 +88,12 @@ func genCase(t *rapid.T) Case {
 	if c.Kind == model.GeometryCollection {
 		c.Fixed = rapid.Bool().Draw(t, "fixed")
 	}
+	if c.Kind != model.GeometryCollection && rapid.IntRange(0, 2).Draw(t, "withinit") == 0 {
+		c.InitVia = rapid.SampledFrom([]string{"flat", "flat-plain", "setcoords", "push", "clone", "wkb"}).Draw(t, "initvia")
+		for k := rapid.IntRange(0, 3).Draw(t, "ninit"); k > 0; k-- {
+			c.Init = append(c.Init, genPart(t, partKind[c.Kind], geom.Layout(c.Layout)))
+		}
+	}
 	alive := []geom.Layout{geom.Layout(c.Layout)}
 	n := rapid.IntRange(1, 30).Draw(t, "nops")
 	if run.Thorough() {
@@ -86,7 +101,7 @@ func genCase(t *rapid.T) Case {
 	}
 	pk := partKind[c.Kind]
 	for i := 0; i < n; i++ {
-		names := []string{"push", "push", "push", "push", "pushbad", "reverse", "swap", "clone", "touchpart", "repush", "growreturned"}
+		names := []string{"push", "push", "push", "push", "pushbad", "reverse", "swap", "clone", "touchpart", "repush", "growreturned", "pushview"}
 		if c.Kind == model.GeometryCollection {
 			names = []string{"push", "push", "push", "pushmulti", "pushbad", "clone"}
 		}
@@ -141,6 +156,14 @@ func genCase(t *rapid.T) Case {
 			}
 		case "touchpart", "repush", "growreturned":
 			op.Bad = rapid.IntRange(0, 1000).Draw(t, "which")
+		case "pushview":
+			op.Bad = rapid.IntRange(0, 1000).Draw(t, "which")
+			if rapid.IntRange(0, 2).Draw(t, "lastview") > 0 {
+				op.Bad = -1 // the last part
+			}
+			if c.Kind == model.MultiPolygon && rapid.Bool().Draw(t, "growview") {
+				op.Parts = []model.G{genPart(t, model.LinearRing, cur)}
+			}
 		}
 		c.Ops = append(c.Ops, op)
 	}
@@ -449,8 +472,152 @@ func cloneState(st *state) *state {
 	return ns
 }
 
+// buildInit makes the receiver a history starts from: the parts of c.Init put in
+// place by the constructor c.InitVia names.
+func buildInit(c Case) (geom.T, *state, error) {
+	st := &state{layout: geom.Layout(c.Layout)}
+	if c.InitVia == "" {
+		return newRecv(c.Kind, st.layout, c.Fixed), st, nil
+	}
+	for i := range c.Init {
+		st.parts = append(st.parts, *c.Init[i].Clone())
+	}
+	w := whole(c.Kind, st)
+	route := model.RouteFlat
+	switch c.InitVia {
+	case "setcoords":
+		route = model.RouteSetCoords
+	case "push":
+		route = model.RoutePush
+	case "flat-plain":
+		if c.Kind == model.MultiPoint {
+			plain := true
+			var flat []float64
+			for _, p := range st.parts {
+				if p.C0 == nil {
+					plain = false
+				}
+				flat = append(flat, model.Floats(p.C0)...)
+			}
+			if plain {
+				return geom.NewMultiPointFlat(st.layout, flat), st, nil
+			}
+		}
+	}
+	t, err := model.Build(w, route)
+	if err != nil {
+		return nil, nil, fmt.Errorf("building the initial receiver via %s: %v", c.InitVia, err)
+	}
+	switch c.InitVia {
+	case "clone":
+		switch r := t.(type) {
+		case *geom.Polygon:
+			t = r.Clone()
+		case *geom.MultiPoint:
+			t = r.Clone()
+		case *geom.MultiLineString:
+			t = r.Clone()
+		case *geom.MultiPolygon:
+			t = r.Clone()
+		}
+	case "wkb":
+		if st.layout.Stride() <= 4 {
+			b, err := wkb.Marshal(t, binary.LittleEndian, wkbcommon.WKBOptionEmptyPointHandling(wkbcommon.EmptyPointHandlingNaN))
+			if err == nil {
+				if d, err := wkb.Unmarshal(b, wkbcommon.WKBOptionEmptyPointHandling(wkbcommon.EmptyPointHandlingNaN)); err == nil {
+					// what the decoder reads as EMPTY points are EMPTY in the model too
+					if dm, err := model.FromGeom(d); err == nil && dm.Kind == c.Kind && dm.Lay() == st.layout {
+						w2 := partsOf(c.Kind, dm)
+						if len(w2) == len(st.parts) {
+							st.parts = w2
+							t = d
+						}
+					}
+				}
+			}
+		}
+	}
+	return t, st, nil
+}
+
+// partsOf splits the model of a whole receiver back into its parts.
+func partsOf(kind string, g *model.G) []model.G {
+	var out []model.G
+	switch kind {
+	case model.Polygon:
+		for _, r := range g.C2 {
+			out = append(out, model.G{Kind: model.LinearRing, Layout: g.Layout, C1: r})
+		}
+	case model.MultiPoint:
+		for _, c := range g.C1 {
+			out = append(out, model.G{Kind: model.Point, Layout: g.Layout, C0: c})
+		}
+	case model.MultiLineString:
+		for _, r := range g.C2 {
+			out = append(out, model.G{Kind: model.LineString, Layout: g.Layout, C1: r})
+		}
+	case model.MultiPolygon:
+		for _, r := range g.C3 {
+			out = append(out, model.G{Kind: model.Polygon, Layout: g.Layout, C2: r})
+		}
+	}
+	return out
+}
+
+// witness builds new values while the history is under way: what the constructors
+// return must not depend on what was pushed onto other values before.
+func witness(step string, kind string, st *state) error {
+	if kind == model.GeometryCollection {
+		return nil
+	}
+	w := whole(kind, st)
+	w.SRID = 0
+	for _, route := range []model.Route{model.RouteFlat, model.RouteSetCoords} {
+		t, err := model.Build(w, route)
+		if err != nil {
+			return fmt.Errorf("%s: a new value of the same parts (route %d): %v", step, route, err)
+		}
+		m, err := model.FromGeom(t)
+		if err != nil {
+			return fmt.Errorf("%s: a new value of the same parts (route %d) is not well formed: %v", step, route, err)
+		}
+		if d := model.Diff(w, m, true); d != "" {
+			return fmt.Errorf("%s: a new value built from the same parts (route %d) differs from them: %s", step, route, d)
+		}
+	}
+	if kind == model.MultiPoint {
+		// a MultiPoint from coordinates alone, one and two points longer than the receiver
+		for extra := 1; extra <= 2; extra++ {
+			n := len(st.parts) + extra
+			s := st.layout.Stride()
+			flat := make([]float64, n*s)
+			for i := range flat {
+				flat[i] = float64(i) + 0.5
+			}
+			mp := geom.NewMultiPointFlat(st.layout, flat)
+			if err := model.WellFormed(mp); err != nil {
+				return fmt.Errorf("%s: a new MultiPoint of %d points built from its coordinates alone: %v", step, n, err)
+			}
+			if mp.NumPoints() != n {
+				return fmt.Errorf("%s: a new MultiPoint built from %d coordinates reports %d points", step, n, mp.NumPoints())
+			}
+			for i := 0; i < n; i++ {
+				f := mp.Point(i).FlatCoords()
+				if len(f) != s || f[0] != flat[i*s] {
+					return fmt.Errorf("%s: point %d of a new MultiPoint of %d points built from its coordinates alone reads %v, want %v", step, i, n, f, flat[i*s:(i+1)*s])
+				}
+			}
+		}
+	}
+	return nil
+}
+
 func prop(c Case) error {
-	first := &live{recv: newRecv(c.Kind, geom.Layout(c.Layout), c.Fixed), st: &state{layout: geom.Layout(c.Layout)}}
+	recv0, st0, err := buildInit(c)
+	if err != nil {
+		return err
+	}
+	first := &live{recv: recv0, st: st0}
 	objs := []*live{first}
 	checkAll := func(step string) error {
 		for k, o := range objs {
@@ -467,7 +634,7 @@ func prop(c Case) error {
 				}
 			}
 		}
-		return nil
+		return witness(step, c.Kind, objs[0].st)
 	}
 	if err := checkAll("new"); err != nil {
 		return err
@@ -531,6 +698,35 @@ func prop(c Case) error {
 				return fmt.Errorf("%s: Push of an earlier part failed: %v", step, err)
 			}
 			st.parts = append(st.parts, *pm)
+		case "pushview":
+			// a part accessor's result (a view into the receiver's own array), pushed back
+			// onto the receiver it came from; the view of the last polygon of a MultiPolygon
+			// may first be given another ring, which lands in the receiver's spare room
+			if len(st.parts) == 0 || c.Kind == model.GeometryCollection {
+				break
+			}
+			k := len(st.parts) - 1
+			if op.Bad >= 0 {
+				k = op.Bad % len(st.parts)
+			}
+			v := part(recv, k)
+			np := *st.parts[k].Clone()
+			if len(op.Parts) == 1 && k == len(st.parts)-1 && op.Parts[0].Lay() == st.layout {
+				if pg, ok := v.(*geom.Polygon); ok {
+					ring, err := model.Build(&op.Parts[0], model.RouteFlat)
+					if err != nil {
+						return err
+					}
+					if err := pg.Push(ring.(*geom.LinearRing)); err != nil {
+						return fmt.Errorf("%s: Push onto the polygon returned by Polygon(%d): %v", step, k, err)
+					}
+					np.C2 = append(np.C2, op.Parts[0].Clone().C1)
+				}
+			}
+			if err := push(recv, v); err != nil {
+				return fmt.Errorf("%s: Push of the receiver's own part %d failed: %v", step, k, err)
+			}
+			st.parts = append(st.parts, np)
 		case "growreturned":
 			// what a part accessor returned for an EMPTY part belongs to the caller (it has no
 			// storage in common with the receiver): growing it changes no later answer
@@ -725,6 +921,18 @@ func classify(c Case) ([]string, bool) {
 	}
 	if emptyThenNon {
 		cl = append(cl, "empty-then-nonempty")
+	}
+	if c.InitVia != "" {
+		cl = append(cl, "init:"+c.InitVia)
+	}
+	for _, op := range c.Ops {
+		if op.Name == "pushview" {
+			cl = append(cl, "pushview")
+			if len(op.Parts) == 1 {
+				cl = append(cl, "pushview-grown")
+			}
+			break
+		}
 	}
 	return cl, pushes >= 3 && emptyThenNon && other >= 1
 }
